@@ -477,6 +477,18 @@ fn cli_lookup(rep: &Report, al: &Alpha) {
             b[5] ^= 0x04;
             variants.push(("key byte 5 changed, old checksum".into(), r::b64(&b), false));
         }
+        // every letter of the encoding switched to the other case, one at a time (a different string: the checksum cannot
+        // match any more unless the comparison ignores case)
+        {
+            let chars: Vec<char> = good.chars().collect();
+            for (i, c) in chars.iter().enumerate() {
+                if c.is_ascii_alphabetic() {
+                    let mut v = chars.clone();
+                    v[i] = if c.is_ascii_lowercase() { c.to_ascii_uppercase() } else { c.to_ascii_lowercase() };
+                    variants.push((format!("character {} ('{}') in the other case", i, c), v.into_iter().collect(), false));
+                }
+            }
+        }
         variants.par_iter().for_each(|(vn, pk, usable)| {
             rep.eval(1);
             rep.nontrivial(format!("cli-recipient-{}", vn).as_bytes());
@@ -734,7 +746,7 @@ pub fn run(rep: &'static Report) {
     // CLI level: what `kestrel key generate` writes for a typed name must read back under exactly the written name
     {
         use crate::proc::{self, Cmd, Scratch};
-        let typed: Vec<&str> = vec!["joe", "  joe", "joe  ", "\u{a0}joe", "\u{3000}wide", " two words ", "a=b", "=lead", "trail=", "#hash", "[Key]", "Name = x", "\u{e9}t\u{e9}", "x\ty", "\tlead-tab"];
+        let typed: Vec<&str> = vec!["joe", "  joe", "joe  ", "\u{a0}joe", "\u{3000}wide", " two words ", "a=b", "=lead", "trail=", "#hash", "[Key]", "Name = x", "\u{e9}t\u{e9}", "x\ty", "\tlead-tab", "ops\r# laptop", "a\rb"];
         typed.par_iter().for_each(|t| {
             rep.eval(1);
             rep.nontrivial(format!("cli-name-{}", t).as_bytes());
@@ -796,6 +808,15 @@ pub fn run(rep: &'static Report) {
             let mut b = blob.clone();
             b[i] ^= 1;
             strs.push(r::b64(&b));
+        }
+        // every letter of the encoding in the other case
+        let enc: Vec<char> = r::b64(&blob).chars().collect();
+        for (ci, c) in enc.iter().enumerate() {
+            if c.is_ascii_alphabetic() {
+                let mut v = enc.clone();
+                v[ci] = if c.is_ascii_lowercase() { c.to_ascii_uppercase() } else { c.to_ascii_lowercase() };
+                strs.push(v.into_iter().collect());
+            }
         }
         strs.push(r::b64(&blob[..35]));
         strs.push(r::b64(&blob[..32]));
